@@ -19,7 +19,7 @@ YOUR TASK: produce changes to the project's NON-TEST source code that each BREAK
   (3) needing something SPECIFIC to manifest: a particular interleaving, a fault or close at a particular point, a multi-step sequence of operations, an unusual but legal input (boundary length, rare encoding, cache eviction, counter wrap), or two cooperating sites that each look fine alone. NOT something that ordinary use or a trivial smoke test would expose at once.
 Make each change look like a plausible refactor, optimisation or well-meant bug fix that a real contributor might submit and a reviewer might wave through. Keep each change small (a few lines to a few dozen).
 
-For each change also write a DEMONSTRATION: a Go test file (placed next to the code, e.g. <pkg>/seeded_demo_test.go; it may be an in-package test) or a small program that FAILS (or panics) with your change and PASSES on the unmodified tree. Verify both directions yourself (e.g. `git stash` the source change, run the demo, `git stash pop`, run again).
+For each change also write a DEMONSTRATION: a Go test file (placed next to the code, e.g. <pkg>/seeded_demo_test.go; it may be an in-package test) or a small program that FAILS (or panics) with your change and PASSES on the unmodified tree. Verify both directions yourself. NEVER use `git stash` (the stash is shared by all worktrees of the repository and other people work in sibling worktrees concurrently): save your change with `git diff -- <source files> > /tmp/$(basename {wt})-change.diff`, remove it with `git checkout -- <source files>`, run the demo, restore it with `git apply /tmp/...-change.diff`, run again. If `git status` ever shows modifications in files you did not touch, discard them with `git checkout -- <file>`. The core integration tests bind the fixed port 127.0.0.1:14514; other people may run them at the same time, so run them inside a private network namespace: `unshare -n bash -c 'ip link set lo up; go test ./internal/integration_tests/ -run <names>'`.
 
 Produce up to 3 DISTINCT changes (different mechanisms / different parts of the property), each independently applicable to the pristine tree. For change k (k = 1, 2, 3) deliver a directory {wt}/SEED/k/ containing:
   - patch.diff  : `git diff` of the source change only (NOT including the demo test), applicable with `git apply` from the repository root of a pristine tree;
